@@ -421,8 +421,9 @@ def run(ctx):
         cases.append(('mathml_cat', 'mathml_cat ' + enc_str(t), got, t))
         ctx.evaluations += 1
     ctx.sample({'formats_en': R.offered('en'), 'formats_ja': R.offered('ja')})
-    ctx.extra['skipped_unsupported'] = common.compare_with_model(ctx, cases)
     import cli_common
+    cases += cli_common.numfmt_suite(ctx, ctx.budget(300, 3000))      # '{:.8f}', '{:.5e}', repr of the scores
+    ctx.extra['skipped_unsupported'] = common.compare_with_model(ctx, cases)
     cli_common.cli_suite(ctx, ctx.budget(24, 240), formats=['auto_extended', 'conll', 'ptb', 'deriv', 'ja', 'json', 'xml', 'prolog', 'html', 'jigg_xml'])      # the same through the command line itself
     common.conclude(ctx)
 
